@@ -33,7 +33,7 @@ def assert_evaluated(p):
         ex = mir.expand(t, p)
         if isinstance(ex, tuple) and ex and ex[0] == "binop" and ex[1] == "Eq":
             s = str(ex)
-            if "wrapping_sub" in s and "'arg', 2, 'value'" in s and "'arg', 3, 'n_bits'" in s and "BitAnd" in s:
+            if "wrapping_sub" in s and "'arg', 2, 'arg2'" in s and "'arg', 3, 'arg3'" in s and "BitAnd" in s:
                 return True
     return False
 
